@@ -298,3 +298,7 @@ Proof.
   change (map (good true)) with neg in E1. rewrite !map_good_false in E2. unfold neg in E2 at 2. fold (neg fs) in E2. rewrite <- E1 in E2.
   rewrite (sort_good_perm (neg (topk true k fs o1))), (sort_good_perm (topk false k (neg fs) o2)). now rewrite E2.
 Qed.
+
+(* growing a collection (any order) never makes its best worse *)
+Theorem best_incl_monotone mx ks ks' b b' : incl ks ks' -> best_of mx ks = Some b -> best_of mx ks' = Some b' -> better mx b b' = false.
+Proof. intros Hi H H'. destruct (best_of_spec mx ks b H) as (I & _). destruct (best_of_spec mx ks' b' H') as (_ & N). now apply N, Hi. Qed.
